@@ -363,7 +363,25 @@ pub fn check(env: &Env, c: &Case) -> Outcome {
             (fel(&s["stop_ptr"]) - fel(&s["begin_addr"])).iter_u64_digits().next().unwrap_or(0) as usize
         };
         let cls: String;
-        match (c.kind - 100) % 10 {
+        match (c.kind - 100) % 12 {
+            10 => {
+                // two cooperating edits: the page is cut inside the program and the output segment emptied
+                let k = 1 + pick(c.a, n.saturating_sub(out_len).max(2) - 1);
+                apply(&mut img, &Edit::Truncate { ptr: "/main_page".into(), len: n.saturating_sub(out_len + k) });
+                let b0 = img["segments"][2]["begin_addr"].clone();
+                img["segments"][2]["stop_ptr"] = b0;
+                cls = "verify/truncated_with_empty_output".into();
+            }
+            11 => {
+                // page cut inside the program, output segment re-declared on top of the remaining tail
+                let keep = 2 + pick(c.a, 6);
+                apply(&mut img, &Edit::Truncate { ptr: "/main_page".into(), len: keep });
+                let last = fel(&img["main_page"][keep - 1]["address"]);
+                let ol = 1 + (c.c as u64 % 2);
+                img["segments"][2]["begin_addr"] = hx(&(&last + u(1) - u(ol)));
+                img["segments"][2]["stop_ptr"] = hx(&(&last + u(1)));
+                cls = "verify/truncated_with_output_on_tail".into();
+            }
             0 => cls = "verify/honest".into(),
             1 => {
                 let i = pick(c.a, n);
@@ -448,7 +466,7 @@ pub fn check(env: &Env, c: &Case) -> Outcome {
 }
 
 pub fn strategy() -> impl Strategy<Value = Case> {
-    (0u8..7, prop_oneof![1 => 0u8..9, 1 => 100u8..110], any::<u16>(), any::<u16>(), any::<u8>()).prop_map(|(layout, kind, a, b, c)| Case { layout, kind, a, b, c })
+    (0u8..7, prop_oneof![1 => 0u8..9, 1 => 100u8..112], any::<u16>(), any::<u16>(), any::<u8>()).prop_map(|(layout, kind, a, b, c)| Case { layout, kind, a, b, c })
 }
 
 pub fn run(ctx: &Ctx) -> Report {
@@ -488,4 +506,4 @@ pub fn replay(ctx: &Ctx, v: &Value) -> Result<Outcome, String> {
     Ok(check(&e, &c))
 }
 
-pub const RULE: &str = "per layout (7), base = the honest public input of a shipped Stone proof; validate_public_input perturbations: step count +-1, consistent trace/step resize to 2^4..2^30 with one builtin's usage at {0, 1, capacity-1, capacity, capacity+1} instances (static layouts), segment count +-1, layout code +-1, range-check bounds at 0/min=max/0xffff/0x10000/min>max/p-1, each builtin segment's stop-begin at {0, one instance, half, capacity, capacity+1 instance, non-multiple, negative, 2^64, 2^128, p-1}; oracle = pure-integer rule (cells | usage and usage/cells <= floor(trace_len/row_ratio), per-layout constants written down independently; dynamic layout judged only with honest trace length, otherwise 'unspecified'). verify_public_input perturbations: honest, one address +-1, two cells reordered, truncation, output cells dropped, extension at a fresh address, one cell deleted, output segment grown, all addresses shifted, value changed; oracle (three-valued): if Ok((ph,oh)) then every program address initial_pc..initial_fp-2 and output address must be present exactly once and (ph,oh) are the Pedersen chains of those cells; honest/value-changed pages must return Ok. Non-trivial = every judged case; classes per layout x perturbation";
+pub const RULE: &str = "per layout (7), base = the honest public input of a shipped Stone proof; validate_public_input perturbations: step count +-1, consistent trace/step resize to 2^4..2^30 with one builtin's usage at {0, 1, capacity-1, capacity, capacity+1} instances (static layouts), segment count +-1, layout code +-1, range-check bounds at 0/min=max/0xffff/0x10000/min>max/p-1, each builtin segment's stop-begin at {0, one instance, half, capacity, capacity+1 instance, non-multiple, negative, 2^64, 2^128, p-1}; oracle = pure-integer rule (cells | usage and usage/cells <= floor(trace_len/row_ratio), per-layout constants written down independently; dynamic layout judged only with honest trace length, otherwise 'unspecified'). verify_public_input perturbations: honest, one address +-1, two cells reordered, truncation, output cells dropped, extension at a fresh address, one cell deleted, output segment grown, all addresses shifted, value changed, page cut inside the program together with an emptied / re-declared output segment; oracle (three-valued): if Ok((ph,oh)) then every program address initial_pc..initial_fp-2 and output address must be present exactly once and (ph,oh) are the Pedersen chains of those cells; honest/value-changed pages must return Ok. Non-trivial = every judged case; classes per layout x perturbation";
